@@ -263,4 +263,16 @@ Section LazilyStage.
     fw_resume (ins_resume resume lazy_decide) ins_store (lp_resume is_status) lazy_undo.
   Definition lazy_init (p : P) : lazy_state := DStart (S2Start (IStart p ([], []))).
   Definition lazy_resume : lazy_state -> input -> outcome lazy_state := d_resume lazy_fin_resume.
+
+  (* finding class C23-b: the answer to the inserted stage message is not iterable (a Status: new-style device) *)
+  Definition lazy_ins (s : lazy_state) : option lazy_body :=
+    match s with
+    | DStart (S2Start x) | DStart (S2Body x) | DRun (S2Start x) | DRun (S2Body x) => Some x
+    | _ => None
+    end.
+  Definition c23b_step (s : lazy_state) (i : input) : bool :=
+    match lazy_ins s, i with
+    | Some (IRun _ st _ (Some (_, upd))), Send r => match upd r st with UFail _ => true | UOk _ => false end
+    | _, _ => false
+    end.
 End LazilyStage.
